@@ -58,7 +58,25 @@ type c03run struct {
 	tail  uint32
 }
 
+// after a few hangs the point is made: the remaining runs would only wait out their watchdogs
+func tooManyHangs(rep *hx.Report) bool {
+	n := 0
+	for k, v := range rep.Distribution {
+		if strings.HasPrefix(k, "violation:hang") || strings.HasPrefix(k, "violation:no-stop") {
+			n += v
+		}
+	}
+	if n >= 4 {
+		rep.Count("skipped-after-hangs")
+		return true
+	}
+	return false
+}
+
 func runC03one(base string, id int, r c03run, env *c08env, rep *hx.Report) {
+	if tooManyHangs(rep) {
+		return
+	}
 	dir := filepath.Join(base, fmt.Sprintf("r%d", id))
 	src := filepath.Join(dir, "src", "root")
 	out := filepath.Join(dir, "out")
